@@ -65,8 +65,19 @@ pub fn judge_with_at(c: &Case, x: &Vec<u8>, st: &mut Stats, deep: bool) -> Verdi
     st.eval();
     let got = imp::v2_parse(x);
     let want = v2_ref(x);
-    // the auto-detecting entry point hands on the v2 parser's incomplete results: their counts must be the same exact ones
-    if let Ok(ppp::HeaderResult::V2(Err(e))) = imp::auto(x) {
+    // the auto-detecting entry point hands on the v2 parser's incomplete results: their counts must be the same exact
+    // ones - also right after it has accepted a text header (one case in four)
+    if st.evals % 4 == 0 {
+        let _ = imp::auto(b"PROXY TCP4 127.0.0.1 192.168.1.1 80 443\r\n");
+    }
+    let through_auto = imp::auto(x);
+    if let (Ok(ppp::HeaderResult::V1(Err(e1))), V2Ref::Incomplete(_) | V2Ref::Partial(..)) = (&through_auto, &want) {
+        // a truncated v2 header answered by the text parser: only legitimate when the binary parser has ruled it out
+        if x.len() <= 12 || ((x[12] == 0x20 || x[12] == 0x21) && (x.len() < 14 || valid_afp(x[13]))) {
+            return Err(Fail::new("counts-through-auto-detection", shape2(x), "HeaderResult::parse", format!("V2(Err({:?}))", want), format!("V1(Err({:?}))", e1)));
+        }
+    }
+    if let Ok(ppp::HeaderResult::V2(Err(e))) = through_auto {
         let exact = match (&e, &want) {
             (E2::Incomplete(n), V2Ref::Incomplete(m)) => n == m,
             (E2::Partial(a, b), V2Ref::Partial(c2, d)) => a == c2 && b == d,
